@@ -48,6 +48,9 @@ def run(ctx, opts=None, pid='C01'):
     res = collect(ctx, range(base + 500000, base + 500000 + ns), dict(STACK_OPTS, **(opts or {})), 2 if quick else 4,
                   want_runs=False)
     judge(ctx, res, clause_prefix='[solver stack] ')
+    # mechanism family: the cache of linear solutions keyed on the right-hand side (rhs_checking option)
+    from vf.drivers import c01rhs
+    c01rhs.run_rhs_cache(ctx)
 
 
 def judge(ctx, res, clause_prefix=''):
@@ -85,17 +88,19 @@ def judge(ctx, res, clause_prefix=''):
                 ctx.violation({'seed': r['seed'], 'cfg': c, 'model': r['md']}, 'blocks of TotalAll (rows/cols by indices, scaled)',
                               r['case']['cfgs'][j]['blocks'], clause_prefix + 'design-variable/response block differs from the exact derivative',
                               info={'clause': 'block'})
-    ctx.impl = len(cases)
-    ctx.evaluations = ncfg + len(cases)
-    ctx.extra['configurations_judged'] = ncfg
-    ctx.extra['models_skipped'] = len(skipped)
-    ctx.extra['cyclic_models'] = sum(1 for r in cases if r['meta']['cyclic'])
+    ctx.impl += len(cases)
+    ctx.evaluations += ncfg + len(cases)
+    ctx.extra['configurations_judged'] = ctx.extra.get('configurations_judged', 0) + ncfg
+    ctx.extra['models_skipped'] = ctx.extra.get('models_skipped', 0) + len(skipped)
+    ctx.extra['cyclic_models'] = ctx.extra.get('cyclic_models', 0) + sum(1 for r in cases if r['meta']['cyclic'])
     for r in cases[:2]:
         ctx.sample({'seed': r['seed'], 'meta': r['meta'],
                     'connections': [{'chain': i['chain'], 'how': i.get('how')} for i in r['md']['ins']][:4]})
     ctx.rule = ('seeded model descriptions (2-5 components, <=2 group levels, promotion chains with src_indices, units, implicit '
                 'components, feedback cycles, 7 sub-jacobian storage kinds, desvar/response indices+scaling); each judged by TLC '
                 'against the exact denotation under several (mode, linear solver, jacobian type, return format, driver scaling) '
-                'configurations; non-trivial = distinct (model, configuration) pairs judged')
+                'configurations (incl. total coloring and the rhs_checking cache); a second family of three-level solver stacks; the '
+                'cache of linear solutions (LinearRHSChecker) model-checked (RhsCache.tla) and validated on traces of the real object; '
+                'non-trivial = distinct (model, configuration) pairs judged + cache traces with hits')
     ctx.assumptions = ['affine components with integer/rational coefficients (exact oracle); solvers run to 1e-14',
                        'ScipyKrylov results compared at 1e-7', 'no MPI, no distributed variables']
